@@ -25,7 +25,7 @@ REL = 1e-4
 
 
 def budget(tier):
-    return {"shards": 8 if tier == "quick" else 14, "deadline_s": 45 if tier == "quick" else 900}
+    return {"shards": 14, "deadline_s": 45 if tier == "quick" else 900}
 
 
 def isa(h_ft):
@@ -207,7 +207,7 @@ def run(ctx):
     grid = [float(h) for h in range(-1400, 36001, step)]
     for h in ctx.my(grid):
         check_isa(ctx, h)
-    n = 400 if ctx.tier == "quick" else 40000
+    n = 4000 if ctx.tier == "quick" else 200000
     for _ in range(ctx.share(n)):
         check_isa(ctx, round(rng.uniform(-1400, 36000), 3))
     for _ in range(ctx.share(n)):
